@@ -98,7 +98,10 @@ class Particle:
             if value.type is not ValueType.ELEMENT or not value.is_array:
                 raise ValueError('{} must be an element array!')
             return [
-                Operator(ele.name, ele.pop('functionName').val_str, copy.deepcopy(dict(ele)))
+                Operator(ele.name, ele.pop('functionName').val_str, copy.deepcopy({
+                    key: attr for key, attr in ele.items()
+                    if key != 'name'  # Stored separately.
+                }))
                 for ele in value.iter_elem()
             ]
 
@@ -122,8 +125,9 @@ class Particle:
                 ]
             # Everything else.
             options = {
-                value.name.casefold(): copy.deepcopy(value)
-                for value in elem.values()
+                key: copy.deepcopy(value)
+                for key, value in elem.items()
+                if key != 'name'  # Stored separately.
             }
 
             systems[elem.name.casefold()] = Particle(
